@@ -207,6 +207,57 @@ def h_gate_reuse(env, N, name, qubits, order):
             cur_g, cur_p = oarr(list(np.asarray(obj.gs[0], dtype=object))), obj.ps[0]
 
 
+def h_gate_on_views(env, N, name, qubits, form):
+    """the operand list in different storage layouts (a reversed / strided selection of a longer list, a column window
+    of a wider array, a transposed buffer, a negated list sharing its strings): every gate acts on the operators the
+    list denotes, whatever the memory layout of its table"""
+    M = Mods(env)
+    gate = getattr(M.ci, name)(*qubits)
+    n = len(qubits)
+    table = oracle_table(name if name != 'CNOT' else ('CNOT_lt' if qubits[0] < qubits[1] else 'CNOT_gt'), n)
+    mask = [i in qubits for i in range(N)]
+    tg, tp = embedded_table(oarr(table[0]), oarr(table[1]), mask, N)
+    L = 4 if form == 'strided' else 2
+    gs = env.bits('in', (L, 2 * N))
+    ps = env.phases('in_ps', (L,))
+    base = M.pa.PauliList(gs.copy(), ps.copy())
+    if form == 'reversed':
+        obj, rows = base[::-1], [1, 0]
+    elif form == 'strided':
+        obj, rows = base[::2], [0, 2]
+    elif form == 'columns':
+        if env.symbolic:
+            from symclif.shim_numpy import S
+            wide = S(np.concatenate([np.asarray(gs, dtype=object), np.asarray(gs, dtype=object)], axis=1))
+        else:
+            wide = np.concatenate([np.asarray(gs), np.asarray(gs)], axis=1)
+        obj, rows = M.pa.PauliList(wide[:, :2 * N], ps.copy()), [0, 1]
+    elif form == 'transposed':
+        if env.symbolic:
+            from symclif.shim_numpy import S
+            tr = S(np.ascontiguousarray(np.asarray(gs, dtype=object).T)).T
+        else:
+            tr = np.ascontiguousarray(np.asarray(gs).T).T
+        obj, rows = M.pa.PauliList(tr, ps.copy()), [0, 1]
+    elif form == 'negated':
+        obj, rows = -base, [0, 1]
+    else:
+        obj, rows = base, [0, 1]
+    res = env.run(lambda: gate.forward(obj))
+    env.goal('forward_no_exception', b_not(res.raised))
+    if res.value is None:
+        return
+    for k, r in enumerate(rows):
+        p0 = (ps[r] + 2) % 4 if form == 'negated' else ps[r]
+        ge, pe = ref.ref_transform(gs[r], p0, tg, tp)
+        env.goal('row%d_string' % k, arr_eq(obj.gs[k], ge))
+        env.goal('row%d_phase' % k, eq(obj.ps[k], pe))
+    res2 = env.run(lambda: gate.backward(obj))
+    env.goal('backward_no_exception', b_not(res2.raised))
+    if res2.value is not None:
+        env.goal('backward_restores', AND(arr_eq(obj.gs[k], gs[r]) for k, r in enumerate(rows)))
+
+
 def jobs(tier):
     J = []
     nmax = 3 if tier == 'quick' else 4
@@ -226,5 +277,9 @@ def jobs(tier):
             for qubits in qsets:
                 for order in ('bf', 'fbf', 'cfb', 'fcf', 'cbcf', 'nfb', 'ncf'):
                     J.append(dict(harness=('c11', 'h_gate_reuse'), params=dict(N=N, name=name, qubits=qubits, order=order)))
+    for N in (2, 3):
+        for name, qubits in (('H', [0]), ('S', [N - 1]), ('Y', [1]), ('CNOT', [0, 1]), ('CNOT', [N - 1, 0])):
+            for form in ('plain', 'reversed', 'strided', 'columns', 'transposed', 'negated'):
+                J.append(dict(harness=('c11', 'h_gate_on_views'), params=dict(N=N, name=name, qubits=qubits, form=form)))
     J.append(dict(harness=('c11', 'h_indexed'), params=dict(N=1), cost=50))
     return J
